@@ -584,6 +584,10 @@ void fold_str(const char *s) {
   G.stats.hash = fnv1a_bytes(G.stats.hash, s, strlen(s));
 }
 void probe(const char *name, uint64_t n) { G.stats.probes[name] += n; }
+uint64_t probe_count(const char *name) {
+  auto it = G.stats.probes.find(name);
+  return it == G.stats.probes.end() ? 0 : it->second;
+}
 void mark_progress() {
   if (G.region && G.team > 1) {
     G.fibers[G.cur].idle_points = 0;
